@@ -125,6 +125,10 @@ package walletdb
 
 //@ iface ReadWriteTx.OnCommit(tx, f)
 //@   trusted
+// added wave3
+// (assumed, bbolt tx.go OnCommit / walletdb/bdb: the hook is appended to the transaction's handler list and runs at Commit, never during this call)
+// added wave3
+//@   opt stores_fn
 //@   modifies commitHooks
 //@   ensures registered: commitHooks == old(commitHooks) + 1
 
